@@ -65,11 +65,11 @@ func CallSQL(name string, args []string) string {
 		}
 	case "in":
 		if len(args) == 2 {
-			return "(" + args[0] + " IN " + args[1] + ")"
+			return "(" + args[0] + " IN (" + args[1] + "))"
 		}
 	case "not in":
 		if len(args) == 2 {
-			return "(" + args[0] + " NOT IN " + args[1] + ")"
+			return "(" + args[0] + " NOT IN (" + args[1] + "))"
 		}
 	case "[]":
 		if len(args) == 2 {
@@ -203,6 +203,7 @@ func strictFunctions(c *core.Ctx, ctx context.Context, only string) {
 	c.Note("strict_descriptors", strict)
 	c.Note("strict_function_signatures_exercised", len(cases))
 	seenFn := map[string]bool{}
+	hitDesc := map[string]bool{}
 	for ci, fc := range cases {
 		k := len(fc.args)
 		seenFn[fc.name] = true
@@ -272,6 +273,12 @@ func strictFunctions(c *core.Ctx, ctx context.Context, only string) {
 				c.Note("strict_not_plannable_example:"+fc.name, perr.Error()+" | "+sql)
 				continue
 			}
+			if ex := pipex.SelectExprs(p); len(ex) == 2 && ex[1].ExpressionType == physical.ExpressionTypeFunctionCall {
+				dk := pipex.DescriptorKey(ex[1].FunctionCall.FunctionDescriptor)
+				hitDesc[dk] = true
+				replay["descriptor"] = dk
+				replay["null_checked_positions"] = nullChecked(ex[1])
+			}
 			outs, res := pipex.Run(ctx, p)
 			replay["observed"] = nodeh.OutsString(outs)
 			if res.Panicked {
@@ -293,6 +300,9 @@ func strictFunctions(c *core.Ctx, ctx context.Context, only string) {
 					hasNull = hasNull || b
 				}
 				v := o.Record.Values[1]
+				if selftest && ci == 3 && hasNull {
+					v = fc.args[0].sample // corrupted recording: the monitor must fire
+				}
 				if hasNull {
 					if v.TypeID != octosql.TypeIDNull {
 						c.Violation("strict-nonnull-on-null:"+sig, fmt.Sprintf("row %d has a NULL argument %v but the result is %s", ri, nullRows[ri], nodeh.ValKey(v)), replay)
@@ -348,6 +358,23 @@ func strictFunctions(c *core.Ctx, ctx context.Context, only string) {
 		}
 	}
 	c.Note("strict_functions_exercised", len(seenFn))
+	if only == "" {
+		// every strict descriptor with at least one parameter must have been selected by the real
+		// overload resolution at least once, otherwise the leg is not what it claims to be
+		var missed []string
+		for _, name := range sortedKeys(fm) {
+			for i, d := range fm[name].Descriptors {
+				if d.Strict && !(d.TypeFn == nil && len(d.ArgumentTypes) == 0) && !hitDesc[fmt.Sprintf("%s#%d", name, i)] {
+					missed = append(missed, fmt.Sprintf("%s#%d", name, i))
+				}
+			}
+		}
+		c.Note("strict_descriptors_selected_by_typecheck", len(hitDesc))
+		c.Note("strict_descriptors_never_selected", missed)
+		if len(missed) > 0 {
+			c.Inconclusive("strict-descriptor-not-reached")
+		}
+	}
 
 	// IS [NOT] NULL never returns NULL, over every pool type, nullable and not
 	for ti, st := range pool() {
@@ -397,4 +424,19 @@ func strictFunctions(c *core.Ctx, ctx context.Context, only string) {
 			}
 		}
 	}
+}
+
+// nullChecked recomputes, from the typechecked call, the argument positions for which
+// Materialize compiles a null check (reported in replays; the verdict only looks at values).
+func nullChecked(e physical.Expression) []int {
+	var out []int
+	if !e.FunctionCall.FunctionDescriptor.Strict {
+		return out
+	}
+	for i, a := range e.FunctionCall.Arguments {
+		if octosql.Null.Is(a.Type) == octosql.TypeRelationIs {
+			out = append(out, i)
+		}
+	}
+	return out
 }
